@@ -23,6 +23,7 @@ type Clause struct {
 	File  string
 	Line  int
 	Pkg   string
+	Ghost bool // ghost-ensures: assumed naming clause, never an obligation
 }
 
 type LoopSpec struct {
@@ -123,7 +124,7 @@ func newContracts() *Contracts {
 	return &Contracts{Funcs: map[string]*FuncContract{}, Specs: map[string]*SpecFunc{}, Ifaces: map[string]*FuncContract{}}
 }
 
-var keywordRe = regexp.MustCompile(`^(func|iface|spec|ufunc|axiom|lemma|requires|ensures|at-return|after-call|modifies|loop|inline|extern|pure|global|fresh|panicok|callback|typeinv|immutable)\b`)
+var keywordRe = regexp.MustCompile(`^(func|iface|spec|ufunc|axiom|lemma|requires|ensures|ghost-ensures|at-return|after-call|modifies|loop|inline|extern|pure|global|fresh|panicok|callback|typeinv|immutable)\b`)
 
 // loadContractFile parses one file; pkgPath is "" for /verif/specs files (full keys).
 func (C *Contracts) loadContractFile(path, pkgPath string) error {
@@ -240,7 +241,7 @@ func (C *Contracts) loadContractFile(path, pkgPath string) error {
 				return fail(fmt.Errorf("clause outside a func block"))
 			}
 			switch kw {
-			case "requires", "ensures", "at-return":
+			case "requires", "ensures", "ghost-ensures", "at-return":
 				lab, src := splitLabel(rest)
 				e, err := parseExpr(src)
 				if err != nil {
@@ -251,6 +252,12 @@ func (C *Contracts) loadContractFile(path, pkgPath string) error {
 				case "requires":
 					cur.Requires = append(cur.Requires, cl)
 				case "ensures":
+					cur.Ensures = append(cur.Ensures, cl)
+				case "ghost-ensures":
+					// a naming clause: gives a name (an uninterpreted predicate) to what this call
+					// returned, e.g. decodesTo(bytes, result). Assumed at call sites, never checked:
+					// its only content is the definition of the ghost predicate. Listed as an assumption.
+					cl.Ghost = true
 					cur.Ensures = append(cur.Ensures, cl)
 				default:
 					cur.AtReturn = append(cur.AtReturn, cl)
